@@ -76,6 +76,9 @@ pub uninterp spec fn va_any(a: &ValueAny) -> &AnyRef;
 
 pub struct Node {
     pub changed_at: Cell<StabilisationNum>,
+    // the node's other stamp: unconstrained here; present so that a classification that reads it is checked against
+    // the contract instead of failing to type-check
+    pub recomputed_at: Cell<StabilisationNum>,
 }
 
 impl ValueAny {
